@@ -293,6 +293,9 @@ func (p *Program) callMods(cc *ssa.CallCommon, ms *ModSet) {
 		ms.Reads = true
 		return
 	}
+	if key == "(*bufio.Scanner).Scan" {
+		ms.Reads = true
+	}
 	if strings.HasPrefix(key, "(*sync.Mutex).") || strings.HasPrefix(key, "(*sync.RWMutex).") {
 		ms.Locks = true
 	}
